@@ -56,7 +56,7 @@ class ModuleInfo:
             elif isinstance(st, ast.Import):
                 for a in st.names:
                     if a.asname:
-                        self.imports[a.asname] = ('module', a.name)
+                        self.imports[a.asname] = ('module_as', a.name)
                     else:
                         self.imports[a.name.split('.')[0]] = ('module', a.name.split('.')[0])
             elif isinstance(st, ast.ImportFrom):
@@ -99,6 +99,8 @@ class ModuleInfo:
             imp = self.imports[name]
             if imp[0] == 'module':
                 return self.loader.import_module(imp[1], eng)
+            if imp[0] == 'module_as':
+                return self.loader.import_module(imp[1], eng, asname=name)
             return self.loader.import_from(imp[1], imp[2], eng)
         for star in self.stars:
             m = self.loader.module(star) if star.startswith(PKG) else None
